@@ -1,6 +1,7 @@
 (** List / fabric-table / session-table facts used by the C07 proofs. *)
 From Coq Require Import NArith List Bool Lia ZifyN ZifyBool.
 From RsM Require Import Model.Lifecycle Model.LifecycleSpec.
+(* -- *)
 Import ListNotations.
 Open Scope N_scope.
 
